@@ -184,6 +184,25 @@ package bsonkit
 //@   all(d, Ref, imp(has(s.Index, d), 0 <= s.Index[d] && s.Index[d] < len(s.List) && s.List[s.Index[d]] == d))
 //@ define ownSet(s) = alloc(s.Index) > alloc(s) && (cap(s.List) == 0 || alloc(s.List.base) > alloc(s))
 
+// convert.go (trusted: goes through the driver's marshaller; writes no object of the repository)
+//@ func MustConvert
+//@   trusted
+//@   modifies nothing
+//@   ensures result != nil && fresh(result)
+//@ func Convert
+//@   trusted
+//@   modifies nothing
+//@   ensures imp(err == nil, result0 != nil && fresh(result0))
+
+//@ func NewSet
+//@   tags C15 C03
+//@   modifies nothing
+//@   locals set
+//@   ensures [C15,C03 name=fresh-wf] result != nil && fresh(result) && fresh(result.Index) && wfSet(result) && ownSet(result)
+//@   ensures [C15 name=empty-for-nil] imp(len(list) == 0, len(result.List) == 0 && all(d, Ref, !has(result.Index, d)))
+//@   loop 0 invariant set != nil && fresh(set) && fresh(set.Index) && wfSet(set) && ownSet(set)
+//@   loop 0 invariant imp(len(list) == 0, len(set.List) == 0 && all(d, Ref, !has(set.Index, d)))
+
 //@ func (*Set).Add
 //@   tags C15 C03 C01
 //@   requires wfSet(s) && ownSet(s)
@@ -194,6 +213,8 @@ package bsonkit
 //@   ensures [C15,C01] imp(result, len(s.List) == old(len(s.List)) + 1 && s.List[old(len(s.List))] == doc)
 //@   ensures [C15,C01] forall(i, 0, old(len(s.List)), s.List[i] == old(s.List[i]))
 //@   ensures [C03] s.Index == old(s.Index)
+//@   ensures [C15,C03 name=in-place-or-fresh] s.List.base == old(s.List.base) || fresh(s.List)
+//@   ensures [C15,C01 name=members] all(d, Ref, has(s.Index, d) == (old(has(s.Index, d)) || d == doc))
 
 //@ func (*Set).Replace
 //@   tags C15 C03 C01
@@ -204,6 +225,8 @@ package bsonkit
 //@   ensures [C15,C01] len(s.List) == old(len(s.List))
 //@   ensures [C15,C01] imp(result, s.List[old(s.Index[d1])] == d2)
 //@   ensures [C15,C01] forall(i, 0, len(s.List), imp(!result || i != old(s.Index[d1]), s.List[i] == old(s.List[i])))
+//@   ensures [C15,C03 name=in-place] s.List == old(s.List)
+//@   ensures [C15,C01 name=members] all(d, Ref, has(s.Index, d) == ite(result, (old(has(s.Index, d)) && d != d1) || d == d2, old(has(s.Index, d))))
 
 //@ func (*Set).Remove
 //@   tags C15 C03 C01
@@ -215,7 +238,10 @@ package bsonkit
 //@   ensures [C15,C01] imp(!result, s.List == old(s.List))
 //@   ensures [C15,C01] imp(result, len(s.List) == old(len(s.List)) - 1)
 //@   ensures [C15,C01] imp(result, forall(j, 0, len(s.List), s.List[j] == old(s.List[ite(j < s.Index[doc], j, j + 1)])))
-//@   loop 0 invariant old(s.Index[doc]) <= i && i <= len(s.List)
+//@   ensures [C15,C03 name=in-place] s.List.base == old(s.List.base)
+//@   ensures [C15,C01 name=members] all(d, Ref, has(s.Index, d) == (old(has(s.Index, d)) && (!result || d != doc)))
+//@   loop 0 invariant old(s.Index[doc]) <= i && i <= len(s.List) && len(s.List) == old(len(s.List)) - 1 && old(has(s.Index, doc))
+//@   loop 0 invariant forall(j, 0, len(s.List), s.List[j] == old(s.List[ite(j < old(s.Index[doc]), j, j + 1)]))
 //@   loop 0 invariant all(d, Ref, has(s.Index, d) == (old(has(s.Index, d)) && d != doc))
 //@   loop 0 invariant all(d, Ref, imp(has(s.Index, d), s.Index[d] == ite(old(s.Index[d]) < old(s.Index[doc]), old(s.Index[d]), ite(old(s.Index[d]) - 1 < i, old(s.Index[d]) - 1, old(s.Index[d])))))
 //@   loop 0 decreases len(s.List) - i
@@ -258,6 +284,7 @@ package bsonkit
 //@   trusted
 //@   modifies nothing
 //@   ensures len(result) == len(list) && (len(result) == 0 || fresh(result)) && forall(i, 0, len(list), result[i] != nil && fresh(result[i]) && *result[i] == *list[i])
+//@   ensures forall(i, 0, len(result), alloc(result[i]) > alloc(result.base)) && forall(i, 0, len(result), forall(j, 0, i, result[i] != result[j]))
 
 //@ func All
 //@   trusted
